@@ -44,6 +44,9 @@ CLAIMS["C16"] = ("must-pass-through on server registration, the registration/ret
 CLAIMS["C15"] = ("inventory of message-literal fields that carry payload bytes + must-pass-through on the payload query, list collector, payload store and TLS authenticator + ownership of Authenticated=true stores, payload readers/writers and the dummy authenticator + argument provenance",
   "Static decision that private payload bytes can reach an outgoing message only through authentication + decrypted-PAL membership of the verified node DID, never through lists; that received payloads are stored only after the hash comparison; and that a peer is marked authenticated only by the authenticators after certificate/host verification. Exhaustive over the current source.",
   "Trusts go/ssa, gRPC/TLS certificate validation and ECIES; generated protobuf code is out of the carrier inventory (it only copies wire bytes).")
+CLAIMS["C14"] = ("must-reach (post-dominance restricted to success exits) of event saves in the admission closure + ownership of notify (after-commit closures only), Finished and job deletion + must-pass-through on completion + persistency option table of the subscriber registrations + retry-budget constant checks",
+  "Static decision that every admitted transaction/payload event is saved inside the admission transaction, that delivery starts only after commit, that a job disappears only on recorded completion while unfinished ones are persisted with an incremented retry counter, that the persistent subscribers are registered with persistency and resumed at start while their budget (maxRetries) lasts. Exhaustive over the current source.",
+  "Trusts go/ssa and go-stoabs commit/after-commit semantics; retry timing and crash instants are not decided.")
 PENDING = {}
 
 def main():
